@@ -10,17 +10,19 @@ THEOREM_FILE = "Props/C07.v"
 HARNESS_ARGS = ["sim"]
 PER_SHARD = 8
 LEVEL_TEXT = ("Coq theorems over a Gallina model of the probing registry (Probe, DnsRegistry::is_probing_done, "
-              "check_probing, handle_expired_probes, tiebreaking, conflict renaming) and of the responder loop around it: "
-              "for EVERY history of the daemon model (any interfaces, datagrams, calls, jitter values, any nondecreasing "
-              "iteration times, late or early) the probe queries for a name on an interface are at least 250 ms apart "
-              "(C07_wire_probe_spacing); at registry level, for every interleaving of registrations, probing passes, lost "
-              "tie-breaks and conflicts: spacing, activation only 750 ms after the probe's start and 250 ms after its last "
-              "query, 'probing done' only after activation; on schedules that are never late the exact timetable T, T+250, "
-              "T+500, active at T+750 < registration + 1000; an announcement is built only when all records are active, a "
+              "check_probing, handle_expired_probes, tiebreaking, conflict renaming) and of the responder loop around it "
+              "(registration, interface addition/removal with addr_auto services, retransmissions): at registry level, for "
+              "EVERY interleaving of registrations, probing passes, lost tie-breaks and conflicts at any nondecreasing times "
+              "(late or early), each probe query and each activation of a name comes at least 250 ms after the previous "
+              "probe query for it (the count restarts where a conflict restarts the probes); activation only 750 ms after "
+              "the probe's start, 'probing done' only after activation; on schedules that are never late the exact "
+              "timetable T, T+250, T+500, active at T+750 < registration + 1000; for every history of the daemon model "
+              "without response datagrams and interface toggles the probe queries for a name on an interface are 250 ms "
+              "apart on the wire (C07_wire_probe_spacing); an announcement is built only when all records are active, a "
               "question is answered only for announced services; constants and comparison directions regenerated from "
               "the Rust on every run. The model is compared iteration by iteration with the real daemon thread in the "
               "simulated world, and the statement is executed as a monitor (chk_C07) on the implementation's packets, "
-              "events and requested wake-ups")
+              "events and requested wake-ups; the monitor starts the count afresh when an interface disappears")
 TECHNIQUE = ("machine-checked proof in Coq (invariants of the probe state machine over all operation sequences) + "
              "model/implementation correspondence on simulated-daemon histories")
 LEVELS = "K6 (real ServiceDaemon thread in the simulated world: register / queries / conflicts / unregister histories)"
@@ -28,7 +30,8 @@ RULE = ("simulated histories: 1-3 services (with/without subtype, IPv4/IPv6/both
         "requires_probe off, services registered while others probe), every harness seed giving a different start jitter, "
         "timer-exact runs, runs with extra early iterations, runs woken exactly at the requested time, late runs; queries of "
         "every type at random phases; conflicting responses and competing probes at every probe step; unregister at every "
-        "phase. A history is non-trivial when the daemon sent at least one packet; distinct = distinct history lines")
+        "phase; addr_auto services with disable_interface / enable_interface (by name, All, IPv4, IPv6) at every "
+        "phase of probing and after the announcements, gaps 0-3000 ms. A history is non-trivial when the daemon sent at least one packet; distinct = distinct history lines")
 TRUSTED = [
     "Coq 8.16.1 kernel (coqc); vm_compute only in Examples and witness lemmas",
     "axioms: none (Print Assumptions: Closed under the global context for every theorem)",
@@ -39,25 +42,27 @@ TRUSTED = [
     "hooks: cargo feature verif-hooks (virtual clock, simulated interface table, captured egress, injected ingress, "
     "per-iteration gate, seeded jitter reported in the trace); harness/src/sim.rs; tools/dnsgen.py parses the packets",
     "tools/props/reglib.py: projection of traces, mirror of ServiceInfo::new's name handling, replay of the harness's "
-    "stepping rules, choice of the interface-map iteration order (an unobservable environment choice; for daemons with "
-    "two interfaces the order consistent with the observation is selected with the help of the model)",
+    "stepping rules, choice of the interface-map iteration order and of which consumer got which of several jitter "
+    "values drawn in one iteration (unobservable environment choices; the one consistent with the observation is "
+    "selected with the help of the model)",
     "modelled, not verified: HashMap/HashSet iteration orders (outputs compared as sorted multisets per iteration), time "
     "standing still inside one iteration, the granted wake-up time (an input), mio/sockets/OS clock/interface "
-    "enumeration (replaced by the hooks), packet splitting above 8972 bytes, the record cache (no browse/resolve calls "
+    "enumeration (replaced by the hooks; the OS table is an input), packet splitting above 8972 bytes, the record cache (no browse/resolve calls "
     "in these histories), non-ASCII case mapping",
 ]
-PARTIAL = ("Proved for all histories of the daemon model: probe spacing on the wire. Proved for all operation sequences of "
-           "the registry machine and for single daemon steps: the other clauses (see Props/C07.v). NOT proved as a theorem "
-           "over histories: that chk_C07 accepts every run of the daemon model (three probes and the wait before every "
-           "response, second announcement, wake-up requests); this is validated on every generated history by running the "
-           "monitor on the model's own output as well. Exact times are theorems about schedules that are never late; the "
-           "granted wake-up time is an input. Interfaces appearing later and addr_auto registrations are not generated. "
-           "Findings (known/C07.json): fewer than three probes when the daemon is woken late; a record that joins a probe "
-           "in flight is proposed fewer than three times; no timer for a probe created inside the probing handler; after a "
-           "lost tie-break a host rename lets the name complete without probing again")
+PARTIAL = ("Proved for all histories of the daemon model without response datagrams and interface toggles: probe spacing on "
+           "the wire. Proved for all operation sequences of the registry machine and for single daemon steps: the other "
+           "clauses (see Props/C07.v). NOT proved as a theorem over histories: that chk_C07 accepts every run of the daemon "
+           "model (three probes and the wait before every response, second announcement, wake-up requests); this is "
+           "validated on every generated history by running the monitor on the model's own output as well. Exact times are "
+           "theorems about schedules that are never late; the granted wake-up time is an input. Findings (known/C07.json): "
+           "fewer than three probes when the daemon is woken late; a record that joins a probe in flight is proposed fewer "
+           "than three times; and three around interfaces that come back: no timer for a probe created by a pending second "
+           "announcement, a single announcement from add_interface, fixed-address services answered for without new probes")
 
-KNOWN = {42: "C07-late-wakeup-fewer-probes", 43: "C07-speaks-under-given-up-name", 44: "C07-record-joins-inflight-probe",
-         45: "C07-probe-created-in-handler-no-timer", 46: "C07-host-rename-skips-reprobe"}
+KNOWN = {42: "C07-late-wakeup-fewer-probes", 44: "C07-record-joins-inflight-probe",
+         45: "C07-probe-created-in-resend-no-timer", 47: "C07-interface-added-single-announcement",
+         48: "C07-static-service-answers-unprobed-after-interface-return"}
 
 
 def project(case_line, raw):
@@ -82,6 +87,8 @@ def generate(rng, tier):
     add(reglib.gen_conflict_history, 220 * k, "conflict")
     add(reglib.gen_unregister_history, 120 * k, "unreg")
     add(reglib.gen_two_daemon_history, 50 * k, "two")
+    add(reglib.gen_iface_toggle_history, 260 * k, "toggle")
+    add(reglib.gen_prefix_tiebreak_history, 40 * k, "prefix")
     # every start jitter the seeds of the table give (first draw of 64 seeds), timer-exact, one service
     for seed in sorted(reglib.FIRST_JITTER)[: (64 if tier != "quick" else 24)]:
         h = {"id": "jit%d" % seed, "t0": reglib.T0, "daemons": [{"seed": seed, "ifaces": reglib.IFCFGS["dual"]}],
